@@ -99,6 +99,7 @@ def stage_irregular(d, k, grid, holes, rate, il=(10, 2), xl=(5, 3), nz=40, seed=
     p = os.path.join(d, f'i{k}.sgz')
     writers.segy_to_sgz(sgy, p, writers.rate_arg(rate), None)
     T = truth(3, (ni, nx, nz), resolved_blockshape(rate, (4, 4, -1), 3), rate, len(present), il, xl, 0, 4000)
+    T['holes'] = sorted([list(h) for h in holes])
     return p, T
 
 
@@ -119,7 +120,10 @@ def stage_crop(d, k, src, T, box):
         lo.append(a0)
         n.append(a1 - a0)
     T2 = dict(T)
-    T2['F'] = dict(F, n=n, ntr=n[0] * n[1])
+    # an irregular source stays irregular: the traces present in the box
+    holes = [[i - lo[0], x - lo[1]] for i, x in T.get('holes', []) if lo[0] <= i < lo[0] + n[0] and lo[1] <= x < lo[1] + n[1]]
+    T2['holes'] = holes
+    T2['F'] = dict(F, n=n, ntr=n[0] * n[1] - len(holes))
     T2['il0'] = T['il0'] + lo[0] * T['ilstep']
     T2['xl0'] = T['xl0'] + lo[1] * T['xlstep']
     T2['z0'] = T['z0'] + lo[2] * T['dz_us'] // 1000
